@@ -118,7 +118,7 @@ theorem genTypeRef_tie : genTypeRef =
 theorem genDeprecationReason_tie : genDeprecationReason =
     ["i.definition.DirectiveArgumentValueByName",
      "if exists",
-     "i.definition.ValueContentString",
+     "i.stringContent",
      "return",
      "i.definition.DirectiveDefinitionArgumentDefaultValueString",
      "if defaultValue!=\"\"",
